@@ -334,6 +334,7 @@ def _send_ob(K):
         must_return = z3.And(nofault, allpos, z3.Not(z3.Or(*[g for (g, kind, v) in rets] + [z3.BoolVal(False)])))
         foreign = z3.Or(*[g for (g, kind, v) in results if kind == "raise" and not isinstance(v, CommError)] + [z3.BoolVal(False)])
         zero_not_error = z3.Or(*[z3.And(tg, tk == 0, given > 0, z3.Or(*[g for (g, kind, v) in rets] + [z3.BoolVal(False)])) for (tg, tk, given) in taken] + [z3.BoolVal(False)])
+        spurious = []
         for name, cond in (("tiling", z3.And(nofault, z3.Or(*tiling_bad))), ("returns-all-bytes", z3.And(nofault, bad_ret)), ("terminates", must_return), ("only-CommError", foreign),
                            ("zero-bytes-accepted-means-CommError", zero_not_error)):
             s = z3.Solver()
@@ -347,10 +348,17 @@ def _send_ob(K):
                 cn = [m.eval(c, model_completion=True).as_long() for c in counts]
                 fa = [i for i, f in enumerate(faults) if z3.is_true(m.eval(f, model_completion=True))]
                 rp = run(replay={"msg": list(mb), "counts": cn, "fault_at": fa[0] if fa else None})
-                return {"status": "refuted", "cex": {"msg": list(mb), "counts": cn, "fault_at": fa[0] if fa else None}, "reproduced": rp["reproduced"],
+                if not rp["reproduced"]:
+                    # the model does not replay: the loop has a shape this query's slice/send pairing does not describe; the other queries
+                    # (which do not depend on that pairing) still decide, and the verdict can then be at best inconclusive
+                    spurious.append(name)
+                    continue
+                return {"status": "refuted", "cex": {"msg": list(mb), "counts": cn, "fault_at": fa[0] if fa else None}, "reproduced": True,
                         "queries": queries, "detail": f"send {name} fails: {rp.get('native')}"}
             if v != "unsat":
                 return {"status": "inconclusive", "why": f"z3 {v} on {name}", "queries": queries}
+        if spurious:
+            return {"status": "inconclusive", "why": f"queries {spurious} returned models that do not replay on the real send (loop shape outside the encoding)", "queries": queries}
         s2 = z3.Solver()
         s2.add(env_ok, *I.assumptions, z3.Length(msg) >= 3, counts[0] == 1, z3.Or(*[g for (g, kind, _) in results if kind == "return"]))
         queries += 1
